@@ -11,7 +11,8 @@ RULE = ("(a) histories: array shape (1-D length 1-6, 2-D up to 4x4), contents mi
         "when the model index is out of range; chained assignment on a returned row refused; a row read at a secret index is a value: Array(row) copies and rows "
         "stored into other matrices do not alias it); emitted constraints "
         "satisfied and reported values equal to wire expressions at the end; the same history re-run with other in-range "
-        "secret index values must give the identical canonical trace. (b) small-field search (p=67): for every length "
+        "secret index values must give the identical canonical trace; deterministic long arrays (31 ... 129, thorough 257 "
+        "elements; 65x2, 2x65 matrices) accessed at the first, a middle and the last position. (b) small-field search (p=67): for every length "
         "1-4 and every position, circuit of a read (and of a write) with the index wire freed: for EVERY index value in "
         "F_p the witness space is enumerated completely - outside [0,len) there must be no satisfying assignment, inside "
         "the read result (every element after a write) must be uniquely the model's. Non-trivial = secret index, length "
@@ -316,6 +317,45 @@ def search_shard(cases):
     return stats
 
 
+def large_cases(tier):
+    """long arrays (lengths around powers of two and usual block sizes), accessed at the first, a middle and the LAST
+    position, secretly and publicly, 1-D and as the rows / columns of a matrix"""
+    out = []
+    lens = [31, 32, 33, 63, 64, 65, 129] if tier == "quick" else [15, 16, 17, 31, 32, 33, 63, 64, 65, 66, 127, 128, 129, 130, 193, 257]
+    for n in lens:
+        contents = [(7 * i + 3) % 23 - 5 for i in range(n)]
+        mask = [i % 3 != 1 for i in range(n)]
+        ops = []
+        for i in (n - 1, 0, n // 2):
+            ops.append(["r", [i], [True], 0, False])
+        ops.append(["w", [n - 1], [True], 9, True])
+        ops.append(["r", [n - 1], [True], 0, False])
+        ops.append(["r", [n - 2], [True], 0, False])
+        ops.append(["w", [0], [True], -4, False])
+        ops.append(["r", [n - 1], [False], 0, False])
+        out.append({"part": "history", "p": "bn128", "b": 16, "shape": [n], "contents": contents, "mask": mask, "ops": ops, "large": True})
+    for rows, cols in ([(65, 2), (2, 65)] if tier == "quick" else [(65, 2), (2, 65), (33, 3), (3, 129)]):
+        contents = [[(5 * i + 3 * j) % 17 - 3 for j in range(cols)] for i in range(rows)]
+        mask = [[(i + j) % 2 == 0 for j in range(cols)] for i in range(rows)]
+        ops = [["r", [rows - 1, cols - 1], [True, True], 0, False], ["r", [rows - 1], [True], 0, False],
+               ["w", [rows - 1, cols - 1], [True, True], 8, True], ["r", [rows - 1, 0], [True, False], 0, False],
+               ["r", [0, cols - 1], [False, True], 0, False], ["w", [rows - 1, 0], [True, False], -2, False],
+               ["r", [rows - 1, cols - 1], [True, True], 0, False]]
+        out.append({"part": "history", "p": "bls12-381", "b": 16, "shape": [rows, cols], "contents": contents, "mask": mask, "ops": ops, "large": True})
+    return out
+
+
+def large_shard(cases):
+    stats = core.Stats()
+    for case in cases:
+        msg, info = run_history(case)
+        stats.case({k: v for k, v in case.items() if k not in ("contents", "mask")}, True, ("large-array:%s" % "x".join(map(str, case["shape"])),), sample_cap=2)
+        if msg:
+            stats.violations.append({"case": case, "msg": "array of shape %r: %s" % (case["shape"], msg), "key": "large"})
+            break
+    return stats
+
+
 def replay(case):
     if case.get("part") == "search":
         return search_case(case)[0]
@@ -337,4 +377,6 @@ def run(ctx):
             for write in (False, True):
                 cases.append({"part": "search", "p": 67 if ctx.tier == "quick" or L < 5 else 131, "len": L, "mask": mask, "write": write})
     total.merge_json(core.run_shards("harness.checks.c15", "search_shard", [dict(cases=cases[i::16]) for i in range(16)]).to_json())
+    big = large_cases(ctx.tier)
+    total.merge_json(core.run_shards("harness.checks.c15", "large_shard", [dict(cases=big[i::8]) for i in range(8)]).to_json())
     ctx.stats = total
